@@ -29,7 +29,8 @@ from typing import Any, Callable, Dict, Iterable, List, Optional, Tuple
 
 VERIF = Path(__file__).resolve().parent.parent
 LEAN_DIR = VERIF / "lean"
-DRIVER = LEAN_DIR / ".lake" / "build" / "bin" / "driver"
+def driver_path(prop: str) -> Path:
+    return LEAN_DIR / ".lake" / "build" / "bin" / f"driver_{prop.lower()}"
 EVIDENCE_DIR = VERIF / "evidence"
 REPLAY_DIR = EVIDENCE_DIR / "replays"
 KNOWN_FILE = VERIF / "known_findings.json"
@@ -134,7 +135,7 @@ def lean_source_files(prop: str) -> List[Path]:
         d = LEAN_DIR / "OdcGeo" / sub
         if d.is_dir():
             files += sorted(d.glob("*.lean"))
-    files.append(LEAN_DIR / "Driver.lean")
+    files += sorted((LEAN_DIR / "Drivers").glob("*.lean"))
     return files
 
 
@@ -175,9 +176,10 @@ def forbidden_tokens() -> List[str]:
     return hits
 
 
-def run_driver(lines: List[str]) -> List[str]:
+def run_driver(prop: str, lines: List[str]) -> List[str]:
     if not lines:
         return []
+    DRIVER = driver_path(prop)
     for ln in lines:
         assert "\n" not in ln
     p = subprocess.run(
@@ -226,6 +228,7 @@ class Run:
         self.exhaustive = False
         self.extra: Dict[str, Any] = {}
         self.searchers: List[Callable[["Run", List[Dict[str, Any]]], Optional[Dict[str, Any]]]] = []
+        self.harness_exc: Optional[str] = None
 
     @property
     def quick(self) -> bool:
@@ -265,7 +268,7 @@ class Run:
 
     # ---- finishing
     def proof_stage(self):
-        ok, log = lean_build([f"OdcGeo.Props.{self.prop}", "driver"])
+        ok, log = lean_build([f"OdcGeo.Props.{self.prop}", f"driver_{self.prop.lower()}"])
         if not ok:
             self.proof_break = "lake build failed:\n" + log[-3000:]
             return
@@ -324,7 +327,7 @@ class Run:
         driver_err = None
         if self.proof_break is None and self.lines:
             try:
-                model_out = run_driver(self.lines)
+                model_out = run_driver(self.prop, self.lines)
             except Exception as e:  # pylint: disable=broad-except
                 driver_err = str(e)
         if model_out:
@@ -361,6 +364,8 @@ class Run:
             broken.append({"kind": "proof-audit", "what": b})
         if driver_err:
             broken.append({"kind": "driver", "what": driver_err})
+        if self.harness_exc:
+            broken.append({"kind": "harness-exception", "what": self.harness_exc})
         if mismatches:
             broken.append(
                 {
